@@ -79,6 +79,27 @@ def degenerate_ranges(rng, w):
     return styles
 
 
+def ridge_through_footprint(rng, w):
+    """oceanic plates with a ridge model: put the ridge through the footprint (a straight line through the centre, or a polyline with a
+    vertex at the centre), so that points exactly on the ridge axis (age zero) are inside the plate"""
+    for f, ft in zip(w['json']['features'], w['truth']['features']):
+        if ft['type'] != 'oceanic plate' or rng.random() < 0.4:
+            continue
+        cx, cy = wg.R(ft['centre'][0]), wg.R(ft['centre'][1])
+        s = wg.R(ft['size'])
+        for m in f.get('temperature models', []):
+            if 'ridge coordinates' in m:
+                style = rng.choice(['meridian', 'parallel', 'vertex'])
+                if style == 'meridian':
+                    m['ridge coordinates'] = [[[cx, wg.R(cy - 2 * s)], [cx, wg.R(cy + 2 * s)]]]
+                elif style == 'parallel':
+                    m['ridge coordinates'] = [[[wg.R(cx - 2 * s), cy], [wg.R(cx + 2 * s), cy]]]
+                else:
+                    m['ridge coordinates'] = [[[wg.R(cx - 2 * s), wg.R(cy - s)], [cx, cy], [wg.R(cx + s), wg.R(cy + 2 * s)]]]
+                if isinstance(m.get('spreading velocity'), list):
+                    m['spreading velocity'] = 0.05
+
+
 def catalogue(rng, w, extreme):
     """-> list of (label, sx, sy, depth) in file units, and raw cartesian points list [(label, x, y, z, depth)]"""
     t = w['truth']
@@ -106,6 +127,16 @@ def catalogue(rng, w, extreme):
                 if ft['type'] in wg.AREA:
                     a = ft['poly'][0]
                     surf.append(('model-depth-bound', a[0], a[1], b))
+        if fj is not None and ft['type'] == 'oceanic plate':
+            for m in fj.get('temperature models', []):
+                for ridge in m.get('ridge coordinates', []) if isinstance(m.get('ridge coordinates'), list) else []:
+                    for k, rp in enumerate(ridge):
+                        ds = {0.0, d0, float(m.get('min depth', 0.0)) if isinstance(m.get('min depth', 0.0), (int, float)) else 0.0, 1.0, mid}
+                        for d in ds:
+                            surf.append(('on-the-ridge-axis', rp[0], rp[1], d))
+                            if k + 1 < len(ridge):
+                                for u in (0.5, 0.25):
+                                    surf.append(('on-the-ridge-axis', rp[0] + u * (ridge[k + 1][0] - rp[0]), rp[1] + u * (ridge[k + 1][1] - rp[1]), d))
         if ft['type'] in wg.AREA:
             poly = ft['poly']
             n = len(poly)
@@ -185,7 +216,7 @@ def main(tier, seed, replay):
     rng = random.Random(seed * 4447 + 13)
     V = core.Verdict(PID, tier, seed)
     V.coverage['rule'] = ('generated worlds with finite parameters (all feature/model types, both systems) and corpus worlds queried (3D and 2D, full property lists) at a catalogue of degenerate locations derived from '
-                          'the truth record: polygon vertices and edge midpoints, feature min/max depths exactly and their floating point neighbours, the own min/max depth exactly and its neighbours (half of the worlds have model ranges rewritten to touch the range of the feature in one depth: starting where the feature ends, ending where it starts, without extent, two layers meeting at one depth, a max depth surface reaching the min depth of the model at one listed point), plume centres/rims/tip, trench coordinates, points on the trench line and '
+                          'the truth record: polygon vertices and edge midpoints, feature min/max depths exactly and their floating point neighbours, the own min/max depth exactly and its neighbours (half of the worlds have model ranges rewritten to touch the range of the feature in one depth: starting where the feature ends, ending where it starts, without extent, two layers meeting at one depth, a max depth surface reaching the min depth of the model at one listed point), plume centres/rims/tip, points exactly on a ridge axis (ridges rewritten to pass through the plate) at depth zero and the top of the model, trench coordinates, points on the trench line and '
                           'below it, slab surface and tip, dip point, poles, the date line with both signs of zero, the planet centre, cartesian surface heights at/below the min depth, random points (thorough: magnitudes '
                           'up to 1e12): every answer finite or a std::exception, no sanitizer report, signal or hang; non-trivial = catalogue points on a degenerate locus')
     quick = tier == 'quick'
@@ -196,6 +227,8 @@ def main(tier, seed, replay):
         w = wg.gen_world(wrng, {'nfeatures': (1, 5), 'p_grains': 0.5, 'p_velocity': 0.5})
         if i % 2 == 1:
             degenerate_ranges(wrng, w)
+        if i % 3 != 0:
+            ridge_through_footprint(wrng, w)
         fn = 'w%d.wb' % i
         c = core.Case('w%d' % i, files={fn: wg.dumps(w['json'])})
         world(c, 1, core.workfile(PID, fn))
